@@ -1,6 +1,5 @@
 (** C15.6 -- on a topologically ordered block list the single forward sweep returns exactly the transitive
-    closure of "has a shocked input or has a visited parent". (The backward sweep for outputs is tied by
-    correspondence and oracle only: visit_from_outputs_partial.) *)
+    closure of "has a shocked input or has a visited parent". (The backward sweep: C15.9.) *)
 From Coq Require Import Arith Bool List Permutation.
 From SSJ Require Import Model.Graph Proofs.GraphProofs.
 Import ListNotations.
